@@ -14,18 +14,27 @@ open Common C07
 
 /-! ### parsing -/
 
+/-- digest of a value: `n` (absent) or `ctr/ids`, followed by `~t` when the stored object went through
+`t > 0` merges that reported no change (not part of the logical value, see `logical`). -/
 def showVal : Option Val → String
   | none => "n"
-  | some v => toString v.ctr ++ "/" ++ (if v.set.isEmpty then "-" else ",".intercalate (v.set.map toString))
+  | some v => toString v.ctr ++ "/" ++ (if v.set.isEmpty then "-" else ",".intercalate (v.set.map toString)) ++
+      (if v.touch == 0 then "" else "~" ++ toString v.touch)
 
 def parseVal (s : String) : Option (Option Val) :=
   if s = "n" then some none else
-  match s.splitOn "/" with
+  let (body, touch) := match s.splitOn "~" with
+    | [b, t] => (b, t.toNat?.getD 0)
+    | _ => (s, 0)
+  match body.splitOn "/" with
   | [c, ids] =>
     match c.toNat?, natList? ids with
-    | some n, some l => some (some ⟨n, l.foldl (fun acc x => insertId x acc) []⟩)
+    | some n, some l => some (some ⟨n, l.foldl (fun acc x => insertId x acc) [], touch⟩)
     | _, _ => none
   | _ => none
+
+/-- the logical value of a digest: what the property talks about. -/
+def logical (d : String) : String := (d.splitOn "~").headD d
 
 def parseBackend : String → Option Backend
   | "consul" => some .consul
@@ -90,6 +99,7 @@ def opF (op : Op) (id : Nat) : Nat → Option Val → FRet Val := fun att inp =>
     | 'i' => .write (Val.inc inp) op.retry
     | 'a' => .write (Val.app id inp) op.retry
     | 'd' => .decline
+    | 'z' => .write (inp.getD Val.empty) op.retry     -- returns its input unchanged
     | _ => .fail false
 
 def showFRet : FRet Val → String
@@ -101,18 +111,19 @@ def showFRet : FRet Val → String
 store under test second and switched to it through the runtime configuration (wrap code 3). -/
 def Spec.primaryPos (sp : Spec) : Nat := if sp.multi == 3 then 1 else 0
 
-/-- how the harness labels a gated mirror attempt: `min=` when it was sent to a store that is not the
-primary, `minP=` when it was sent to the primary. The model derives the target from
-`mirrorTargets` over the two clients. -/
-def Spec.mirrorLabel (sp : Spec) : String :=
-  if (mirrorTargets [0, 1] sp.primaryPos).contains sp.primaryPos then "minP=" else "min="
+def Spec.secondaryPos (sp : Spec) : Nat := 1 - sp.primaryPos
 
 def cfgOf (sp : Spec) : Cfg Val := { budget := sp.budget, sbudget := 10, merge := Val.merge }
 
 /-- initial system: the harness writes the initial values with one uncontended CAS on the primary. -/
 def initSys (sp : Spec) : Sys Val :=
-  let s0 : Sys Val := Sys.init (Store.empty sp.backend) (Store.empty (sp.secondary.getD .consul))
+  let pri : Store Val := Store.empty sp.backend
+  let sec : Store Val := Store.empty (sp.secondary.getD .consul)
+  -- wrap code 3: the client list is [other store, store under test] and the harness then switches the
+  -- primary to position 1 through the runtime configuration
+  let s00 : Sys Val := if sp.multi == 3 then Sys.init2 sec pri true else Sys.init2 pri sec (sp.multi > 0)
   let cfg := cfgOf sp
+  let s0 := if sp.multi == 3 then next cfg s00 (.switch 1) else s00
   let go (s : Sys Val) (kv : Nat × Option Val) : Sys Val :=
     match kv.2 with
     | none => s
@@ -128,7 +139,8 @@ structure Sim where
   sys : Sys Val
   nextOp : List Nat         -- per caller: index of the next operation to start
 
-def view (sp : Spec) (s : Sys Val) (k : Nat) : String := showVal (s.pri.val (sp.mapped k))
+def view (sp : Spec) (s : Sys Val) (k : Nat) : String := showVal ((s.stores sp.primaryPos).val (sp.mapped k))
+def viewSec (sp : Spec) (s : Sys Val) (k : Nat) : String := showVal ((s.stores sp.secondaryPos).val (sp.mapped k))
 
 /-- after the caller was released: it runs until it blocks again (in `f` of the primary loop, or in
 the gated function of the mirror write) or returns. -/
@@ -137,12 +149,14 @@ def afterRelease (sp : Spec) (cfg : Cfg Val) (c : Nat) (s : Sys Val) (done : Opt
   | .reading .. =>
     let s' := next cfg s (.step c)
     (s', match s'.ph c with
-      | .holding _ _ _ _ inp' => "in=" ++ showVal inp'
+      | .holding _ _ _ _ _ inp' => "in=" ++ showVal inp'
       | _ => "?")
   | .mreading .. =>
     let s' := next cfg s (.step c)
     (s', match s'.ph c with
-      | .mholding _ _ _ _ inp' => sp.mirrorLabel ++ showVal inp'
+      -- the harness labels a gated mirror attempt `min=` when it was sent to a store that is not the
+      -- primary and `minP=` when it was sent to the primary; the model's target comes from `mirrorTargets`
+      | .mholding t _ _ _ _ _ inp' => (if t == sp.primaryPos then "minP=" else "min=") ++ showVal inp'
       | _ => "?")
   | _ => (s, if done == some true then "ok" else "err")
 
@@ -161,10 +175,10 @@ def simEvent (sp : Spec) (st : Sim) (c : Nat) : String × Sim :=
       let cl : Call Val := ⟨sp.mapped op.key, opF op ((c + 1) * 100 + j), sp.multi ≥ 2⟩
       let s1 := next cfg (next cfg s (.begin c cl)) (.step c)
       let res := match s1.ph c with
-        | .holding _ _ _ _ inp => "in=" ++ showVal inp
+        | .holding _ _ _ _ _ inp => "in=" ++ showVal inp
         | _ => "?"
       (s!"s{c}:{res}:{view sp s1 op.key}", ⟨s1, st.nextOp.set c (j + 1)⟩)
-  | .holding cl _ att _ inp =>
+  | .holding _ cl _ att _ inp =>
     let fret := showFRet (cl.f att inp)
     let s1 := next cfg s (.step c)
     let done := match s1.log with
@@ -216,6 +230,25 @@ structure JSt where
   errs : Nat
   mirrors : Nat := 0
 
+/-- judge-side union of two sorted id lists (written independently of the model's `insertId`). -/
+def unionIds : List Nat → List Nat → List Nat
+  | [], ys => ys
+  | xs, [] => xs
+  | x :: xs, y :: ys =>
+    if x < y then x :: unionIds xs (y :: ys)
+    else if y < x then y :: unionIds (x :: xs) ys
+    else x :: unionIds xs ys
+termination_by xs ys => xs.length + ys.length
+
+/-- What a successful call must leave, from the property text: the function's output; on the gossip
+store a write is a merge by construction of the backend, so there it is the join of the value found
+and the output (equal to the output for the only-growing functions of the harness). Logical digests. -/
+def expectedLeft (sp : Spec) (before out : String) : String :=
+  match sp.backend, parseVal before, parseVal out with
+  | .ml, some (some b), some (some o) =>
+    showVal (some ⟨max b.ctr o.ctr, unionIds b.set o.set, 0⟩)
+  | _, _, _ => out
+
 def addBad (st : JSt) (r : String) : JSt := if st.bad.contains r then st else { st with bad := st.bad ++ [r] }
 
 def judgeEvent (sp : Spec) (st : JSt) (ev : String) : JSt :=
@@ -229,6 +262,8 @@ def judgeEvent (sp : Spec) (st : JSt) (ev : String) : JSt :=
       let key := match (sp.ops.getD c [])[j]? with
         | some op => op.key
         | none => 0
+      let after := logical after
+      let res := logical res
       -- starting a call only reads
       let st := if after != lookupS st.seen key then addBad st "read-changed-value" else st
       let st := { st with started := (c, j + 1) :: st.started.filter (·.1 != c), seen := setS st.seen key after }
@@ -245,8 +280,13 @@ def judgeEvent (sp : Spec) (st : JSt) (ev : String) : JSt :=
       let key := match (sp.ops.getD c [])[j - 1]? with
         | some op => op.key
         | none => 0
+      let after := logical after
+      let res := logical res
+      let fret := logical fret
       let before := lookupS st.seen key
       let input := lookupS st.inp c
+      -- a call whose function returned an error must not report success
+      let st := if fret.startsWith "e" ∧ res = "ok" then addBad st "failed-function-reported-success" else st
       let st :=
         if fret = "m" then
           -- the mirror write of a MultiClient: it must not touch the primary, and the call still succeeds
@@ -258,7 +298,7 @@ def judgeEvent (sp : Spec) (st : JSt) (ev : String) : JSt :=
           let out := (fret.drop 3).toString
           let st := if input != lookupS st.left key then
               addBad st (if input = "n" then "stale-input-absent" else "stale-input") else st
-          let st := if after != out then addBad st "value-left-not-output" else st
+          let st := if after != expectedLeft sp before out then addBad st "value-left-not-output" else st
           { st with left := setS st.left key after }
         else if after != before then
           addBad st (if fret = "nil" then "declined-changed-value"
@@ -276,9 +316,9 @@ def judgeSched (sp : Spec) (evs : List String) (fin raw : List String) : JSt :=
   let st := evs.foldl (judgeEvent sp) st0
   let keys := List.range sp.nKeys
   -- the final value reflects exactly the successful calls
-  let st := if keys.any (fun k => fin.getD k "?" != lookupS st.left k) then addBad st "final-differs" else st
+  let st := if keys.any (fun k => logical (fin.getD k "?") != lookupS st.left k) then addBad st "final-differs" else st
   -- the wrappers are transparent: reading the backend under the mapped key gives the same value
-  if keys.any (fun k => raw.getD k "?" != fin.getD k "?") then addBad st "wrapped-get-differs-from-backend" else st
+  if keys.any (fun k => logical (raw.getD k "?") != logical (fin.getD k "?")) then addBad st "wrapped-get-differs-from-backend" else st
 
 /-! ### stress -/
 
@@ -293,7 +333,10 @@ def parseCallRec (s : String) : Option CallRec :=
   | [_, k, res, ins, last] => k.toNat?.map fun k => ⟨k, res = "ok", ins.splitOn ">", last⟩
   | _ => none
 
-/-- size of a value: every function of the harness that writes strictly grows it. -/
+/-- size of a value. ASSUMPTION of the stress judge (stated in bin/props.d/C07.json): every function of
+the stress generator that writes strictly grows the value (increment / append only; the
+"return the input" function `z` is used in scheduled runs only), so the commit order of the
+successful calls can be recovered by sorting them by the size of their input. -/
 def measure (d : String) : Nat :=
   match parseVal d with
   | some (some v) => 1 + v.ctr + v.set.length
@@ -321,9 +364,11 @@ def judgeStress (sp : Spec) (recs : List CallRec) (fin raw : List String) : List
   let b2 := if keys.any (fun k =>
       match chainOk (showVal (sp.init.getD k none)) (writesOf recs k) with
       | none => false
-      | some last => last != fin.getD k "?") then ["final-differs"] else []
-  let b3 := if keys.any (fun k => raw.getD k "?" != fin.getD k "?") then ["wrapped-get-differs-from-backend"] else []
-  b1 ++ b2 ++ b3
+      | some last => logical last != logical (fin.getD k "?")) then ["final-differs"] else []
+  let b3 := if keys.any (fun k => logical (raw.getD k "?") != logical (fin.getD k "?")) then ["wrapped-get-differs-from-backend"] else []
+  -- a call whose function returned an error on its last invocation must not report success
+  let b4 := if recs.any (fun r => r.ok && r.last.startsWith "e") then ["failed-function-reported-success"] else []
+  b1 ++ b2 ++ b3 ++ b4
 
 /-- replay the chain through the model, one call at a time. -/
 def modelStress (sp : Spec) (recs : List CallRec) : List String :=
@@ -353,7 +398,7 @@ def handle (cmd : String) (f : List String) : String × String × String :=
       let (mtrace, ms) := simTrace sp evs
       let keys := List.range sp.nKeys
       let mfin := ";".intercalate (keys.map (view sp ms))
-      let msec := if sp.multi == 0 then "-" else ";".intercalate (keys.map fun k => showVal (ms.sec.val (sp.mapped k)))
+      let msec := if sp.multi == 0 then "-" else ";".intercalate (keys.map fun k => viewSec sp ms k)
       let diff :=
         match firstDiff 0 mtrace evs with
         | some d => d
